@@ -55,9 +55,9 @@ def _run_one(args):
         ctx, err = run_check(pid, "quick", prog)
     except AnalysisError as e:
         return (m["id"], "analysis-error", [str(e)])
-    if err:
-        return (m["id"], "analysis-error", [err[:300]])
     keys = [(f.rule, f.site, f.construct) for f in ctx.findings]
+    if err and not keys:
+        return (m["id"], "analysis-error", [err[:300]])
     return (m["id"], "ran", keys)
 
 
@@ -82,7 +82,7 @@ def run(ctx, jobs=None):
             skipped += 1
             details.append({"variant": m["id"], "result": "skipped (anchor text not in tree)"})
             continue
-        if status == "analysis-error" and m.get("expect") == "ANALYSIS-ERROR":
+        if status == "analysis-error" and "ANALYSIS-ERROR" in ([m.get("expect")] if isinstance(m.get("expect"), str) else (m.get("expect") or [])):
             caught += 1
             details.append({"variant": m["id"], "result": "analysis stops (exit 2) as expected"})
             continue
